@@ -3,7 +3,7 @@
 From Coq Require Import List ZArith Bool Lia.
 From TskVerif Require Import Base.Common C03.Model C03.Spec C03.ArrayProofs C03.AlleleProofs
      C03.PaintProofs C03.DecodeProofs C03.TraverseProofs C03.RuleProofs C03.CheckProofs C03.TotalProofs
-     C03.DfsTotalProofs C03.MutParents C03.ParentProofs C03.SeekProofs C03.SampleListProofs.
+     C03.DfsTotalProofs C03.MutParents C03.ParentProofs C03.SeekProofs C03.SampleListProofs C03.NodeInvariantProofs.
 Import ListNotations.
 Open Scope Z_scope.
 
@@ -190,3 +190,19 @@ Example ex_seek_history :
   snd (decode_obj seek on_error ex_fuel ex_v1 (run seek on_error ex_fuel ex_v1 o0 hist) (0, ex_site))
   = Ok ([1; 3; 1; -1; 2], [A; C; G; T], true).
 Proof. vm_compute. reflexivity. Qed.
+
+(* decode_node_invariant is not vacuous: ex_v1 (all samples, sample lists) and a traversal
+   variant requesting [6; 1] in another order agree on nodes 1 and 6 *)
+Definition ex_v4 : variant := mkVariant 7 [6; 1] [-1; 1; -1; -1; -1; -1; 0] true false None.
+Example ex_hyps4 : hyps_b ex_parent ex_tree ex_v4 ex_site = true. Proof. vm_compute. reflexivity. Qed.
+Example ex_decode4 : decode ex_fuel ex_tree ex_v4 ex_site = Ok ([2; 3], [A; C; G; T], false).
+Proof. vm_compute. reflexivity. Qed.
+Example ex_node_invariant :
+  get [1; 3; 1; -1; 2] 1 = get [2; 3] 1 /\ get [1; 3; 1; -1; 2] 4 = get [2; 3] 0.
+Proof.
+  destruct (hyps_b_sound _ _ _ _ ex_hyps1) as (TR1 & MR & _ & HT & _).
+  destruct (hyps_b_sound _ _ _ _ ex_hyps4) as (TR4 & _).
+  destruct (decode_node_invariant_l (par_of ex_parent) (zlen ex_parent) (default_fuel ex_tree) HT ex_site
+              _ _ ex_v1 _ _ ex_v4 _ _ _ _ _ _ eq_refl eq_refl TR1 TR4 MR ex_decode1 ex_decode4) as [_ X].
+  split; [exact (X 1 1 1 eq_refl eq_refl) | exact (X 4 0 6 eq_refl eq_refl)].
+Qed.
